@@ -303,7 +303,9 @@ def check_selection(run, scope, dt, dk, rec, a, fault):
 def _cut_is_borderline(logits, mask, knobs, tol) -> bool:
     z = R.scores(logits, mask, knobs["temperature"], knobs["tanh_clipping"])
     fin = np.sort(z[np.isfinite(z)])
-    if knobs["top_k"] and knobs["top_k"] > 0 and len(fin) > 1:
+    if ((knobs["top_k"] and knobs["top_k"] > 0) or (knobs["top_p"] and 0 < knobs["top_p"] < 1)) and len(fin) > 1:
+        # two scores closer than the rounding of the shift can tie or swap: which of them a rank- or
+        # mass-based cut keeps is then decided by sort order, not by the distribution
         gaps = np.diff(fin)
         if ((gaps > 0) & (gaps <= 2 * tol + 1e-6)).any():
             return True
